@@ -2310,13 +2310,17 @@ sexp sexp_make_env_op (sexp ctx, sexp self, sexp_sint_t n) {
 
 sexp sexp_make_null_env_op (sexp ctx, sexp self, sexp_sint_t n, sexp version) {
   sexp_uint_t i;
+  char *cname;
   sexp_gc_var2(e, core);
   sexp_gc_preserve2(ctx, e, core);
   e = sexp_make_env(ctx);
   for (i=0; i<(sizeof(core_forms)/sizeof(core_forms[0])); i++) {
     core = sexp_copy_core(ctx, &core_forms[i]);
-    sexp_env_define(ctx, e, sexp_intern(ctx, (char*)sexp_core_name(core), -1), core);
-    sexp_core_name(core) = sexp_c_string(ctx, (char*)sexp_core_name(core), -1);
+    /* the name is a C string until converted - don't let the gc trace it */
+    cname = (char*)sexp_core_name(core);
+    sexp_core_name(core) = SEXP_FALSE;
+    sexp_env_define(ctx, e, sexp_intern(ctx, cname, -1), core);
+    sexp_core_name(core) = sexp_c_string(ctx, cname, -1);
   }
   sexp_gc_release2(ctx);
   return e;
@@ -2326,21 +2330,35 @@ extern struct sexp_opcode_struct* sexp_primitive_opcodes;  /* from opcodes.c */
 
 sexp sexp_make_primitive_env_op (sexp ctx, sexp self, sexp_sint_t n, sexp version) {
   int i;
+  char *cname, *cdata, *cdata2;
   sexp_gc_var4(e, op, sym, name);
   sexp_gc_preserve4(ctx, e, op, sym, name);
   e = sexp_make_null_env(ctx, version);
   for (i=0; sexp_primitive_opcodes[i].op_class; i++) {
     op = sexp_copy_opcode(ctx, &sexp_primitive_opcodes[i]);
-    name = sexp_intern(ctx, (char*)sexp_opcode_name(op), -1);
-    sexp_opcode_name(op) = sexp_c_string(ctx, (char*)sexp_opcode_name(op), -1);
+    /* the name and some data fields are C strings until converted - */
+    /* don't let the gc trace them */
+    cname = (char*)sexp_opcode_name(op);
+    sexp_opcode_name(op) = SEXP_FALSE;
+    cdata = cdata2 = NULL;
     if (sexp_opcode_opt_param_p(op) && sexp_opcode_data(op)) {
-      sym = sexp_intern(ctx, (char*)sexp_opcode_data(op), -1);
+      cdata = (char*)sexp_opcode_data(op);
+      sexp_opcode_data(op) = SEXP_FALSE;
+    }
+    if (sexp_opcode_class(op) == SEXP_OPC_FOREIGN && sexp_opcode_data2(op)) {
+      cdata2 = (char*)sexp_opcode_data2(op);
+      sexp_opcode_data2(op) = SEXP_FALSE;
+    }
+    name = sexp_intern(ctx, cname, -1);
+    sexp_opcode_name(op) = sexp_c_string(ctx, cname, -1);
+    if (cdata) {
+      sym = sexp_intern(ctx, cdata, -1);
       sexp_opcode_data(op) = sexp_env_ref(ctx, e, sym, SEXP_FALSE);
     } else if (sexp_opcode_class(op) == SEXP_OPC_PARAMETER) {
       sexp_opcode_data(op) = sexp_cons(ctx, name, SEXP_FALSE);
     }
-    if (sexp_opcode_class(op) == SEXP_OPC_FOREIGN && sexp_opcode_data2(op)) {
-      sexp_opcode_data2(op) = sexp_c_string(ctx, (char*)sexp_opcode_data2(op), -1);
+    if (cdata2) {
+      sexp_opcode_data2(op) = sexp_c_string(ctx, cdata2, -1);
     }
     sexp_env_define(ctx, e, name, op);
   }
